@@ -68,12 +68,13 @@ func init() {
 	extraRules["C09"] = func(c *Ctx) {
 		stale("sign/bls", "sign/tbls", "sign/bdn", "sign/cosi")(c)
 		PairedUpdates(c, "default")
+		CheckMustWrite(c, "C09")
 	}
 	extraRules["C07"] = stale("share")
 	extraRules["C04"] = func(c *Ctx) { CheckMustWrite(c, "C04") }
-	extraRules["C10"] = func(c *Ctx) { WriterDiscipline(c, "default", "C10") }
-	extraRules["C11"] = func(c *Ctx) { WriterDiscipline(c, "default", "C11") }
-	extraRules["C12"] = func(c *Ctx) { WriterDiscipline(c, "default", "C12") }
+	extraRules["C10"] = func(c *Ctx) { WriterDiscipline(c, "default", "C10"); CheckMustWrite(c, "C10") }
+	extraRules["C11"] = func(c *Ctx) { WriterDiscipline(c, "default", "C11"); CheckMustWrite(c, "C11") }
+	extraRules["C12"] = func(c *Ctx) { WriterDiscipline(c, "default", "C12"); CheckMustWrite(c, "C12") }
 }
 
 func init() {
